@@ -119,6 +119,9 @@ def _enumerate_next(ex, st, args, dest_ty, func, where):
 def _slice_iter_next(ex, st, args, dest_ty, func, where):
     ref = args[0]
     it = ex.deref(st, ref)
+    if not (isinstance(it, VStruct) and it.name == "SliceIter"):
+        # `for x in slice` : into_iter on a &[T] was the identity model, the iterator is still the slice itself
+        it = VStruct("SliceIter", [seq_of(ex, st, it), VInt(I(0), "usize")])
     s, idx = it.f
     has = simp(idx.t < s.len)
     elem = VInt(s.at(idx.t), s.elem)
@@ -321,6 +324,38 @@ def _partial_ne(ex, st, args, dest_ty, func, where):
     return VBool(simp(z3.Not(r.t)))
 
 
+def _to_seq(ex, st, v):
+    while isinstance(v, VRef):
+        v = ex.deref(st, v)
+    if isinstance(v, VSeq):
+        return v
+    if isinstance(v, VStruct) and v.name == "[array]":
+        arr = z3.K(z3.IntSort(), I(0))
+        for i, x in enumerate(v.f):
+            arr = z3.Store(arr, i, x.t)
+        return VSeq(arr, I(0), I(len(v.f)), v.f[0].ty if v.f else "u8")
+    raise Unsupported("expected a slice/array, got %r" % (v,))
+
+
+def _slice_eq(ex, st, args, dest_ty, func, where):
+    a, b = _to_seq(ex, st, args[0]), _to_seq(ex, st, args[1])
+    cap = 64
+    for s_ in (a, b):
+        if z3.is_int_value(simp(s_.len)):
+            cap = min(cap, max(simp(s_.len).as_long(), 0)) if cap == 64 else cap
+    cap = max(getattr(ex, "byte_cap", 0), getattr(ex, "str_cap", 0), 32)
+    ex.oblig("model-bound", where, "slice comparison beyond the model capacity %d" % cap, z3.And(st.guard, a.len == b.len, a.len > cap))
+    t = simp(z3.And(a.len == b.len, *[z3.Implies(k < a.len, a.at(I(k)) == b.at(I(k))) for k in range(cap)]))
+    if func.endswith("::ne"):
+        t = simp(z3.Not(t))
+    return VBool(t)
+
+
+def _array_range_index(ex, st, args, dest_ty, func, where):
+    s = _to_seq(ex, st, args[0])
+    return _seq_index(ex, st, [VRef("val", val=s), args[1]], dest_ty, func, where)
+
+
 def install_core(ex):
     A = ex.add_model
     A(r"^<(u\d+|usize|i\d+|isize) as (std::convert::)?From<(u\d+|bool)>>::from$", _int_from, "<uN as From<uM>>::from")
@@ -354,6 +389,8 @@ def install_core(ex):
     A(r" as (std::ops::)?FromResidual<.*>>::from_residual$", _from_residual, "FromResidual::from_residual (error value opaque)")
     A(r"^(std::fmt::|core::fmt::)?Arguments::<'_>::(from_str|new_const|new_v1|new)", _opaque, "fmt::Arguments constructors (opaque)")
     A(r"^core::array::equality::<impl PartialEq.*>::(eq|ne)$|^<\[u8; \d+\] as PartialEq>::(eq|ne)$", _array_eq, "[T; N] == [T; N]")
+    A(r"^<&?\[u8\] as PartialEq(<&?\[u8\]>)?>::(eq|ne)$", _slice_eq, "[u8] == [u8]")
+    A(r"^<\[u8; \d+\] as (std::ops::)?Index<(std::ops::)?Range\w*<usize>>>::index$", _array_range_index, "<[u8; N] as Index<Range*>>::index (bounds-checked)")
     A(r"^<&.+ as PartialEq>::(eq|ne)$", _ref_partial_eq, "<&T as PartialEq> (forwards to T)")
     A(r"^<[\w:]+ as PartialEq>::ne$", _partial_ne, "PartialEq::ne = !eq (provided method)")
 
@@ -620,6 +657,25 @@ def _dur_as_secs(ex, st, args, dest_ty, func, where):
     return VInt(d.f[0].t, "u64")
 
 
+def _dur_as_units(ex, st, args, dest_ty, func, where):
+    d = args[0]
+    while isinstance(d, VRef):
+        d = ex.deref(st, d)
+    unit = re.search(r"as_(nanos|micros|millis)$", func).group(1)
+    total_ns = d.f[0].t * 1000000000 + d.f[1].t
+    div = {"nanos": 1, "micros": 1000, "millis": 1000000}[unit]
+    return VInt(simp(total_ns / div), "u128")
+
+
+def _dur_subsec(ex, st, args, dest_ty, func, where):
+    d = args[0]
+    while isinstance(d, VRef):
+        d = ex.deref(st, d)
+    unit = re.search(r"subsec_(nanos|micros|millis)$", func).group(1)
+    div = {"nanos": 1, "micros": 1000, "millis": 1000000}[unit]
+    return VInt(simp(d.f[1].t / div), "u32")
+
+
 def _systime_add(ex, st, args, dest_ty, func, where):
     t = _st_of(ex, st, args[0])
     d = args[1]
@@ -691,6 +747,8 @@ def install_time_fs(ex):
     A(r"^(std::result::)?Result::<.*>::ok$", _res_ok, "Result::ok")
     A(r"^(std::time::)?Duration::from_secs$", _dur_from_secs, "Duration::from_secs")
     A(r"^(std::time::)?Duration::as_secs$", _dur_as_secs, "Duration::as_secs")
+    A(r"^(std::time::)?Duration::as_(nanos|micros|millis)$", _dur_as_units, "Duration::as_{nanos,micros,millis}")
+    A(r"^(std::time::)?Duration::subsec_(nanos|micros|millis)$", _dur_subsec, "Duration::subsec_*")
     A(r"^<(std::time::)?SystemTime as (std::ops::)?Add<(std::time::)?Duration>>::add$", _systime_add, "SystemTime + Duration (panics on overflow)")
     A(r"^(std::time::)?SystemTime::duration_since$", _duration_since, "SystemTime::duration_since")
     A(r"^(std::option::)?Option::<.*>::and_then::<", _opt_and_then, "Option::and_then")
